@@ -644,9 +644,33 @@ def clear_resets(prog, chk, rid, classes=tuple(NODE)):
                        not each_iteration(lambda l, r: l == "this->freeItem" and r == NR):
                         miss.append("recycle of each node (prev = freeItem; freeItem = node)")
                     if d["hash"] and not each_iteration(lambda l, r: l == "*" + NR + "->cell" and r == "0"):
-                        # alternative: the whole bucket array is zero-filled
-                        if not any("Memory::zero(this->data" in f.r(i) for i in q.calls(f)):
-                            miss.append("bucket head reset (*node->cell = 0)")
+                        # alternative: the whole bucket array is zero-filled - on every path on which an iteration skips the store.
+                        # Decided per fill level (entries fewer than / as many as / more than buckets): the tests on _size and
+                        # capacity are evaluated for each, and no remaining path may avoid both the wipe and the store
+                        zero = q.pos_of(f, [i for i in q.calls(f) if "Memory::zero(this->data" in f.r(i)])
+                        cellpos = q.pos_of(f, [s.node for s, l, r in st2 if l == "*" + NR + "->cell" and r == "0" and inloop(s)])
+                        uncovered = None
+                        for sz_, cap_ in ((1, 2), (2, 2), (3, 2)):
+                            cut = set()
+                            for b_ in f.blocks.values():
+                                c_ = b_.get("cond")
+                                if c_ is None or len(b_["succ"]) != 2 or b_.get("tk") == "SwitchStmt" or None in b_["succ"]:
+                                    continue
+                                v_ = fin.eval_expr(f, c_, {"this->_size": sz_, "this->capacity": cap_})
+                                if v_ is not None:
+                                    cut.add((b_["id"], b_["succ"][1] if v_ else b_["succ"][0]))
+                            if evp is None:
+                                break
+                            a_ = fin.path_with_cuts(f, f.entry_pos(), evp, avoid=zero, cut=cut, after_src=False)
+                            targets = {evp} | set((b, 0) for b in f.blocks if b not in lb)
+                            b_path = None
+                            for t_ in targets:
+                                b_path = b_path or fin.path_with_cuts(f, evp, t_, avoid=cellpos, cut=cut)
+                            if a_ is not None and b_path is not None:
+                                uncovered = "fewer entries than buckets" if sz_ < cap_ else "exactly as many entries as buckets" if sz_ == cap_ else "more entries than buckets"
+                                break
+                        if not zero or uncovered:
+                            miss.append("bucket head reset (*node->cell = 0)" + (" for a table holding %s" % uncovered if uncovered else ""))
                 if miss:
                     chk.bad(rid, f, "clear-misses:" + ";".join(miss), where,
                             "clear() does not perform on every path: %s (stale begin/size/bucket heads make later lookups walk recycled nodes)" % "; ".join(miss))
